@@ -32,7 +32,8 @@ def load_module(pid: str):
 def exec_case(mod, case, tier: str, replay: bool = False) -> Ctx:
     ctx = Ctx(tier=tier, replay=replay)
     try:
-        core.with_timeout(getattr(mod, "CASE_TIMEOUT", CASE_TIMEOUT), mod.run, case, ctx)
+        limit = mod.case_timeout(case) if hasattr(mod, "case_timeout") else getattr(mod, "CASE_TIMEOUT", CASE_TIMEOUT)
+        core.with_timeout(limit, mod.run, case, ctx)
     except core.CaseTimeout:
         if hasattr(mod, "on_timeout"):
             mod.on_timeout(case, ctx)
@@ -74,6 +75,8 @@ class Acc:
         known, unknown = core.classify(ctx.violations, live)
         for _, fid in known:
             self.known_hits[fid] += 1
+        if ctx.case_override is not None:
+            case = ctx.case_override
         for v in unknown:
             key = core.h64([v["clause"], v["site"]])
             size = len(core.canon(case))
